@@ -170,7 +170,7 @@ PROPS['C13'] = dict(
 )
 PROPS['C15'] = dict(
     title='incomplete mode',
-    units=['wrap'],
+    units=['wrap', 'kwstack'],
     engines=[dict(module='gvc.engine', args=dict(analyses=('nullable', 'entries')))],
     shims=['A-nom', 'A-packrat'],
     design='DESIGN.md 3/C15',
